@@ -212,8 +212,9 @@ def tryall(R):
     body = set(n for n in g.live_nodes() if any(fr.kind == 'loop' and fr.stmt is fl.ast for fr in n.frames))
     for h in [n for n in body if n.kind == 'handler']:
         reach = g.reachable([h], avoid={fl}, skip_edge=nx)
-        leaves = any(m is g.exit or m is g.raise_exit for m in reach) or \
-            any(m not in body for m in reach)
+        frontier = [m for m in reach if m not in body and m is not fl and any(pn in body or pn is h for (pn, _) in m.pred)]
+        # feasible ways out only: `sock = None` in the handler followed by `if sock is not None: break` does not leave
+        leaves = any(path_conditions(R, g, rd, h, m, avoid={fl}) for m in frontier)
         back = fl in g.reachable([h], skip_edge=nx)
         R.ob('C09.tryall', 'failure at one address moves on to the next', back and not leaves,
              'a socket failure for one address ends the attempt instead of trying the remaining addresses', func=q, node=h.ast)
